@@ -225,10 +225,17 @@ class Run:
         # known findings: replay each witness
         self.known_lines = []
         for e in known:
+            w = e.get("witness")
+            if w is None:
+                w = getattr(P, "KNOWN_WITNESSES", {}).get(e["id"])
             try:
-                w = e["witness"]
-                obs = P.observe(w)
-                why = P.oracle(w, obs)
+                if w is None:
+                    why = "listed without a replayable witness"
+                elif hasattr(P, "known_still_fails"):
+                    why = P.known_still_fails(e["id"], w)
+                else:
+                    obs = P.observe(w)
+                    why = P.oracle(w, obs)
             except Exception as ex:
                 why = "witness could not be replayed: " + repr(ex)
             if why is not None:
